@@ -29,7 +29,7 @@ Next == Update \/ TwinRestart
 Spec == Init /\ [][Next]_vars
 Bound == TLCGet("level") <= Depth
 
-LC == INSTANCE Lifecycle WITH RestartTo <- 1, Incs <- {1}, HasRecs <- TRUE, EpochBound <- TRUE, RefRestart <- FALSE,
+LC == INSTANCE Lifecycle WITH ltab <- [restart |-> 1, incs |-> {1}, hasrecs |-> TRUE, epochbound |-> TRUE, refrestart |-> FALSE],
                               state <- st, warm <- (since >= 2 * cfg.w)
 LCSpec == LC!Spec
 TypeOK == LC!TypeOK
